@@ -74,6 +74,7 @@ type Sched struct {
 	Steps         int            // scheduling decisions taken so far (history stamps)
 	OnDecision    func(step int) // called by InterleaveBlocking before each decision
 	Blocks        int
+	Halt          bool // set by OnDecision: stop driving the tasks (the process they belong to died)
 }
 
 func NewSched() *Sched {
@@ -570,6 +571,9 @@ func (s *Sched) InterleaveBlocking(tasks []*Task, choices []int) string {
 		}
 		if s.OnDecision != nil {
 			s.OnDecision(s.Steps)
+		}
+		if s.Halt {
+			return "halted"
 		}
 		var run []*Task
 		blocked := 0
